@@ -27,7 +27,7 @@ func c20Run(c *mon.Ctx) {
 	ev := c.Counter("evaluations")
 	nt := c.DistinctSet("nontrivial")
 	bad := func(sig, f string, a ...any) { c.Violation(sig, fmt.Sprintf(f, a...), fmt.Sprintf(f, a...)) }
-	reps := c.Pick(3, 100)
+	reps := c.Pick(32, 400)
 
 	// ---- (1) all 65536 record type codes ----
 	names := map[string]uint16{}
@@ -47,9 +47,16 @@ func c20Run(c *mon.Ctx) {
 		if err != nil || u.UnmarshalText(txt) != nil || u != t {
 			bad("type-text-marshalling", "record type %d marshals to %q, which unmarshals to %d", i, txt, u)
 		}
+		first := aucoalesce.GetAuditEventType(t)
+		for k := 0; k < 64*reps; k++ {
+			if aucoalesce.GetAuditEventType(t) != first {
+				bad("type-nondeterministic", "record type %d is categorised differently on call %d than on the first call", i, k)
+				break
+			}
+		}
 		for k := 0; k < reps; k++ {
-			if aucoalesce.GetAuditEventType(t) != aucoalesce.GetAuditEventType(t) || t.String() != name {
-				bad("type-nondeterministic", "record type %d is not categorised / named the same on repeated calls", i)
+			if t.String() != name {
+				bad("type-nondeterministic", "record type %d is not named the same on repeated calls", i)
 			}
 		}
 		if !strings.HasPrefix(name, "UNKNOWN[") {
